@@ -279,6 +279,10 @@ def generate(u, repo, specs_dir, twin_of=None):
         out.append("// ---- extracted: %s :: %s (lines %d-%d)\n" % (it["relpath"], item.path, item.line, item.end_line))
         if it["wrap"]:
             out.append(it["wrap"] + " {\n")
+            if it["wrap"].startswith("mod "):
+                # several same-named functions of sibling modules in one unit: each in its own module, which
+                # sees the prelude the way the real module sees its parent (`super::`)
+                out.append("use super::*;\nuse vstd::prelude::*;\n")
         out.append(item.text())
         if it["wrap"]:
             out.append("}\n")
